@@ -924,7 +924,10 @@ class AstToCfg(ast.NodeVisitor):
       self.visit(stmt)
     # The orelse is an optional continuation of the body.
     if node.orelse:
-      block_representative = node.orelse[0]
+      # The key only identifies the cond section. It must not be a statement
+      # node: an `if` as first statement of the else block opens a cond section
+      # of its own under that key.
+      block_representative = (node, 'orelse')
       self.builder.enter_cond_section(block_representative)
       self.builder.new_cond_branch(block_representative)
       for stmt in node.orelse:
